@@ -4,6 +4,7 @@ import (
 	"fmt"
 	"sort"
 	"strings"
+	"unicode/utf8"
 
 	exsrv "github.com/cybergarage/go-redis/examples/go-redisd/server"
 	"github.com/cybergarage/go-redis/redis/glob"
@@ -86,6 +87,10 @@ func c17compile(p string) (g *glob.Glob, err error, panicked string) {
 
 func c17pairs(res *run.Result, p string, keys []string, block string) bool {
 	g, err, pn := c17compile(p)
+	if (pn != "" || err != nil || g == nil) && !utf8.ValidString(p) {
+		res.Violate("C17:compile:invalid-utf8", "compiling a glob pattern never fails or panics", fmt.Sprintf("glob.Compile(%q): err=%v panic=%q", p, err, pn), map[string]any{"pattern": p})
+		return false
+	}
 	if pn != "" || err != nil || g == nil {
 		res.Violate("C17:compile:"+metaClass(p), "compiling a glob pattern never fails or panics", fmt.Sprintf("glob.Compile(%q): err=%v panic=%q", p, err, pn), map[string]any{"pattern": p})
 		return false
@@ -148,6 +153,11 @@ func c17run(idx int) run.Result {
 	case idx < len(c17.pats)+c17.nRandom:
 		r := rng.New(c17.seed, rng.Str("C17r"), uint64(idx))
 		p := string(r.From(c17ext, 1+r.Intn(12)))
+		if r.Chance(1, 40) {
+			// a byte that is not valid UTF-8 somewhere in the pattern (keys and patterns are byte strings)
+			at := r.Intn(len(p) + 1)
+			p = p[:at] + string([]byte{rng.Pick(r, []byte{0xff, 0x80, 0xc0, 0xfe})}) + p[at:]
+		}
 		res.Key = gen.Hash64([]byte(p))
 		res.NonTrivial = hasMeta(p)
 		res.Classes = []string{"random-pattern"}
@@ -377,7 +387,7 @@ func init() {
 			if tier == "thorough" {
 				blocks = "complete blocks: patterns <=3 x keys <=5, patterns =4 x keys <=4, patterns =5 x keys <=3 over {a,b,*,?,.,+,(,|,$}; the remaining patterns =5 x keys 4..5 block is sampled (150 keys per pattern)"
 			}
-			return "part 1: glob.Compile(p) must not fail or panic and MatchString(k) must equal a direct recursive glob matcher: " + blocks + "; plus seeded random patterns up to length 12 over that alphabet extended with ^ { } ) , space newline 0, each against 60 keys derived from the pattern or random. part 2: the bundled example store is populated through the real connection loop with all 91 keys of length <=2 (as string, hash, list and set keys) and for every pattern of length <=3 plus seeded longer ones the key sets of KEYS p, SCAN 0 MATCH p COUNT 1000 and the reference selection must be equal; for '*' and four patterns of each batch a full SCAN iteration (cursor 0, then the returned cursor, until 0 comes back) with default COUNT and COUNT 1, 3, 7 must end and select exactly those keys. distinct_nontrivial = distinct patterns containing a wildcard or a regexp metacharacter (part 1) plus server patterns (part 2)"
+			return "part 1: glob.Compile(p) must not fail or panic and MatchString(k) must equal a direct recursive glob matcher: " + blocks + "; plus seeded random patterns up to length 12 over that alphabet extended with ^ { } ) , space newline 0 (one in forty with a byte that is not valid UTF-8), each against 60 keys derived from the pattern or random. part 2: the bundled example store is populated through the real connection loop with all 91 keys of length <=2 (as string, hash, list and set keys) and for every pattern of length <=3 plus seeded longer ones the key sets of KEYS p, SCAN 0 MATCH p COUNT 1000 and the reference selection must be equal; for '*' and four patterns of each batch a full SCAN iteration (cursor 0, then the returned cursor, until 0 comes back) with default COUNT and COUNT 1, 3, 7 must end and select exactly those keys. distinct_nontrivial = distinct patterns containing a wildcard or a regexp metacharacter (part 1) plus server patterns (part 2)"
 		},
 		Exhaustive:  func(tier string) bool { return false },
 		Assumptions: []string{"patterns and keys are ASCII; '[', ']' and '\\' (character classes and escapes of Redis globs) are outside the statement and never generated"},
